@@ -109,6 +109,12 @@ def run_c05(rep):
                          oracle_names=["oracle_c04"], known_classes=known_classes("C05"), label="c05-play")
 
 
+def run_c20(rep):
+    import fam_stdlib
+    n, ops = sizes(rep, (600, 30), (20000, 100))
+    fam_stdlib.stdlib_family(rep, n, ops)
+
+
 # ------------------------------------------------------------------------------------------------ registry
 
 PROPS = {
@@ -209,6 +215,22 @@ PROPS = {
                    "the re-entry succeeds or raises, installs the document's used choices, and runs no hooks; the "
                    "'continues exactly like the original' clause is false of the code (recorded finding C05-F1: load "
                    "re-enters the saved passage) and is decided by the oracle, which accepts exactly that deviation",
+    ),
+    "C20": dict(
+        theorems=["Bardic.Stdlib." + t for t in ["wallet_nonneg", "spend_all_or_nothing", "wallet_dict_roundtrip",
+                  "add_respects_limit", "add_keeps_within", "inventory_weight_le", "buy_atomic", "sell_atomic",
+                  "relationship_ranges", "threshold_iff_upcross", "rel_dict_roundtrip", "roll_bounds"]],
+        run=run_c20,
+        rule="operation sequences (≤ 30 quick / 100 thorough) over small integer domains on the real Wallet, Inventory, "
+             "Shop (sell-back rates and discounts 0, 1/2, 1, 3/2, 2; duplicate stock names) and Relationship (subclass "
+             "recording threshold hooks), dice notations NdS±M with random.randint fed from the case; every object "
+             "observed after every call and compared with the Lean model; the invariants are also evaluated directly on "
+             "the real observations; distinct by hash of the case",
+        level_text="proof over all operation sequences of any length and all integer arguments: wallet_nonneg, "
+                   "spend_all_or_nothing, add_respects_limit / inventory_weight_le (non-negative weights), buy_atomic "
+                   "(non-negative price), sell_atomic, relationship_ranges, threshold_iff_upcross, dict round trips, "
+                   "roll_bounds; float weights / rates are outside the model (partial, named)",
+        assumptions=["integer weights, values and amounts; rates and discounts are dyadic rationals so that the float arithmetic of the real code is exact"],
     ),
 }
 
